@@ -839,6 +839,16 @@ class Num:
         k2 = key[:c] + f
         if k2 in st.env:
             return st.env[k2]
+        if self.prog is not None:
+            # a field of a const-qualified file-scope object with a constant initialiser (reached through its address)
+            nm_ = k2.replace("(", "").replace(")", "").replace("&", "").split(":")[-1]
+            for sep_ in ("->", "."):
+                if nm_.endswith(sep_ + f) and nm_[: -len(sep_ + f)] in self.prog.globals:
+                    g_ = self.prog.globals[nm_[: -len(sep_ + f)]]
+                    fi_ = (g_.get("init") or {}).get("struct", {}).get(f) if g_.get("const") and isinstance(g_.get("init"), dict) else None
+                    if isinstance(fi_, dict) and isinstance(fi_.get("int"), int):
+                        st.env[k2] = Poly.const(fi_["int"])
+                        return st.env[k2]
         R = self.prog.records.get(rec) if self.prog else None
         ft = {}
         if R:
@@ -873,6 +883,11 @@ class Num:
         if nn["k"] == "member":
             rec, f = nn.get("rec"), nn["f"]
             st.notes.setdefault("orig", {}).setdefault(k, None)
+            if v is not None and len(v.t) == 1 and self.base_atom(k) not in st.notes.get("patoms", ()):
+                (m, c), = v.t.items()
+                # (the same for an object that is not the caller's: a local view built on the way to one that is handed on)
+                if c == 1 and len(m) == 1 and m[0].startswith("wrap'") and int(m[0].split("'")[1]) > getattr(self, "_mark", 10 ** 9):
+                    st.notes.setdefault("wrapstore_local", []).append((nn.get("loc", [0])[0], rec, f, st.notes.get("wrapped", ["?"])[-1]))
             if v is not None and len(v.t) == 1 and self.base_atom(k) in st.notes.get("patoms", ()):
                 (m, c), = v.t.items()
                 if c == 1 and len(m) == 1 and m[0].startswith("wrap'") and int(m[0].split("'")[1]) > getattr(self, "_mark", 10 ** 9):
@@ -1040,6 +1055,14 @@ class Num:
         if k in ("var", "member"):
             if k == "var" and n["sc"] == "other":
                 return None
+            if k == "member" and not n.get("arrow") and self.prog is not None:
+                # a field of a const-qualified file-scope object with a constant initialiser that nothing writes
+                b_ = fn.d(n["a"][0])
+                if b_ is not None and b_["k"] == "var" and b_.get("sc") in ("global", "slocal"):
+                    g_ = self.prog.globals.get(b_["n"])
+                    fi_ = ((g_ or {}).get("init") or {}).get("struct", {}).get(n["f"]) if g_ and g_.get("const") and isinstance(g_.get("init"), dict) else None
+                    if isinstance(fi_, dict) and isinstance(fi_.get("int"), int):
+                        return Poly.const(fi_["int"])
             return self.read(n, st)
         if k == "index":
             bn = fn.d(n["a"][0])
@@ -1558,6 +1581,22 @@ class Num:
             v = self.val(cond, st)
             if v is not None and pol[0] == "case" and pol[1] is not None:
                 return self.assume_cmp("==", v, Poly.const(pol[1]), st)
+            if v is not None and pol[0] == "default":
+                # the default arm of a small switch excludes its case labels (large dispatch tables are left alone: each
+                # exclusion splits the state)
+                labs = None
+                for B in fn.blocks.values():
+                    if B.term == "switch" and B.cond is not None and (B.cond is cond or B.cond.get("id") == cond.get("id")):
+                        labs = [fn.blocks[s_].case for s_ in B.succ if s_ is not None and fn.blocks[s_].case is not None]
+                        break
+                if labs and len(labs) <= 4 and all(isinstance(k_, int) for k_ in labs):
+                    outs = [st]
+                    for k_ in labs:
+                        nxt = []
+                        for s1 in outs:
+                            nxt.extend(self.assume_cmp("!=", v, Poly.const(k_), s1))
+                        outs = nxt
+                    return outs
             return [st]
         n = fn.d(cond) if cond.get("k") == "ref" else cond
         cid = cond.get("id")
